@@ -94,6 +94,15 @@ Whole == {
                                                     on |-> CmpE(">", ColP(<<"x", "a">>), ColP(<<"y", "c">>))]]],
   [pos |-> "joinnullhash", q |-> [BaseQ EXCEPT !.from = [k |-> "join", type |-> "right", kw |-> "", l |-> Table(<<"t">>, "x"), r |-> Table(<<"w">>, "y"),
                                                     on |-> CmpE("=", ColP(<<"x", "a">>), ColP(<<"y", "c">>))]]],
+  \* a join cut by a window without ORDER BY: which rows the window keeps is open, that a repetition keeps the same ones is not
+  [pos |-> "joinlimit", q |-> [BaseQ EXCEPT !.limit = 1, !.from = [k |-> "join", type |-> "inner", kw |-> "", l |-> Table(<<"t">>, "x"), r |-> Table(<<"u">>, "y"),
+                                                    on |-> CmpE(">=", ColP(<<"x", "a">>), ColP(<<"y", "c">>))]]],
+  [pos |-> "joinlimithash", q |-> [BaseQ EXCEPT !.limit = 1, !.offset = 1, !.from = [k |-> "join", type |-> "left", kw |-> "", l |-> Table(<<"w">>, "y"), r |-> Table(<<"t">>, "x"),
+                                                    on |-> CmpE("=", ColP(<<"x", "a">>), ColP(<<"y", "c">>))]]],
+  [pos |-> "joinlimitpar", q |-> [BaseQ EXCEPT !.limit = 2, !.from = [k |-> "join", type |-> "inner", kw |-> "PARALLEL JOIN", l |-> Table(<<"t">>, "x"), r |-> Table(<<"w">>, "y"),
+                                                    on |-> CmpE("!=", ColP(<<"x", "a">>), ColP(<<"y", "c">>))]]],
+  [pos |-> "joinlimitparhash", q |-> [BaseQ EXCEPT !.limit = 1, !.from = [k |-> "join", type |-> "inner", kw |-> "PARALLEL HASH_JOIN", l |-> Table(<<"u">>, "y"), r |-> Table(<<"t">>, "x"),
+                                                    on |-> CmpE("=", ColP(<<"x", "a">>), ColP(<<"y", "c">>))]]],
   [pos |-> "spin",     q |-> SelQ(<<I(A, ""), I(FnQ("spin", "concat", <<S_, X>>), "v"), I(FnQ("spinasync", "concat", <<S_, X>>), "w")>>, None)],
   [pos |-> "asyncmix", q |-> SelQ(<<I(FnQ("async", "concat", <<S_, X>>), "v"), I(A, ""), I(FnQ("async", "concat", <<A, X>>), "w")>>, None)] }
 
